@@ -15,7 +15,7 @@ MANIFEST = {
             "completely (thorough: the whole boundary-grid family with every admissible stride); 2/4/8-byte values use sampled members plus all "
             "members within 48 of the bound / within 300 of the intersection ends. Bounded: generated values.",
     "note": "Trusted: TLC + CommunityModules, harness/src/domenc.rs projections (canary-checked), BV.tla/BVInt.tla comparisons (MC_BV). "
-            "DataDomain::intersect is checked on symbolic members (the documented deviations of that function concern aliasing of identifiers).",
+            "DataDomain::intersect (DataDom!IntersectD): a relative target or a Top member can denote any absolute value, so kept must be: common absolute members, ALL absolute members of one side when the other has a relative target or the Top flag, relative members common to both sides; members under different identifiers may be dropped (documented deviation of that function).",
     "technique": "TLA+ soundness relation over a concretisation predicate + TLC trace validation of recorded refinements",
     "design_ref": "DESIGN.md section 6, C04",
 }
@@ -56,4 +56,4 @@ def check(seed, tier):
     }, ["1 byte: gamma(x) enumerated completely for all 256 bounds; thorough tier: the grid family is enumerated completely (exhaustive refers to it)",
         "2/4/8 bytes: sampled members (Interval!Members) plus the members of x within distance 48 of the bound; intersections: plus all integers "
         "within 300 above the larger start / below the smaller end",
-        "DataDomain: only the absolute part is refined, relative and Top members must be preserved; intersect is checked on symbolic members"])
+        "DataDomain: only the absolute part is refined, relative and Top members must be preserved; intersect: absolute members of one side are feasible as soon as the other side has a relative target or the Top flag (all environments); (id1,o1) against (id2,o2) with id1 # id2 is not demanded", "DataDomain intersections include all shape pairs (absolute-only / pointer-carrying / mixed, with and without Top flag) in both receiver/argument orders"])
